@@ -645,7 +645,12 @@ def _check_c14(v, case, add, st):
         msg = str(e)
         if nid not in msg:
             add("C14", "exception_does_not_name_failing_node", msg=msg[:300], node=nid)
-        if nid in v.idx:
+        if not located:
+            # no call location is known: the call raises the original exception - except where Python cannot carry it (a
+            # StopIteration cannot cross a coroutine or an asyncio Future): then the wrapper names the node and carries the cause
+            if not isinstance(cause, StopIteration):
+                add("C14", "original_exception_wrapped_although_no_location_is_known", exc=repr(e)[:200], cause=repr(cause)[:120])
+        elif nid in v.idx:
             # one call site per source line: site i is written on line i + 2 of "<name>"
             loc = "<%s>:%d" % (v.spec["name"], S.site_lines(v.spec)[v.idx[nid]])
             k = msg.find(loc)
